@@ -23,7 +23,9 @@ OperandTable ==
     I2v |-> Id(v2), I3v |-> Id(v3), H2 |-> Hom(2, 1, v2), H3 |-> Hom(3, 1, v3), Hh |-> Hom(-1, 2, v2),
     AI |-> InvOf(A), DI |-> DInvOf(D), R1 |-> R1, R1T |-> RotTOf(R1), Hq |-> Hom(-3, 1, QU2), Iqu |-> Id(QU2),
     \* an operator next to its own lazy (generic) transpose: A @ A.T is NOT the identity unless A is orthogonal
-    Pr |-> Pr, PrT |-> TOf(Pr), Bd |-> Bd, BdT |-> TOf(Bd) ]
+    Pr |-> Pr, PrT |-> TOf(Pr), Bd |-> Bd, BdT |-> TOf(Bd),
+    \* a composition that still carries two unmerged scalar factors (what 2 * (A / 4) builds)
+    HHA |-> Comp(<<Hom(2, 1, v2), Hom(1, 4, v2), A>>) ]
 Opd(n) == OperandTable[n]
 
 \* scalars: <<num, den, kind>>; kind "vec" is a 1-d array, which must be refused
